@@ -156,19 +156,40 @@ Proof.
 Qed.
 
 (* ------------------------------------------------------------------ the cadence flags drive the units *)
-Definition with_flags (us : list (list Q * list Q)) (flags : list bool) : list (list Q * list Q * bool) :=
-  map (fun uf => (fst (fst uf), snd (fst uf), snd uf)) (combine us flags).
+Fixpoint with_flags (us : list (list Q * list Q)) (flags : list bool) : list (list Q * list Q * bool) :=
+  match us, flags with
+  | (np, ns) :: us', f :: fl' => (np, ns, f) :: with_flags us' fl'
+  | _, _ => []
+  end.
+
+Lemma with_flags_nth : forall us flags t x, nth_error (with_flags us flags) t = Some x -> nth t flags false = snd x.
+Proof.
+  induction us as [|[np ns] us IH]; intros [|f fl] t x H; cbn [with_flags] in H; try (destruct t; discriminate).
+  destruct t as [|t]; cbn [nth_error nth] in *; [injection H as <-; reflexivity|apply IH; exact H].
+Qed.
 
 Lemma units_run_app ptau stau s a b : units_run ptau stau s (a ++ b) = units_run ptau stau (units_run ptau stau s a) b.
 Proof. unfold units_run. apply fold_left_app. Qed.
 
-(* for ANY flag sequence: over a stretch [i, j) of units whose flags are all unset the targets are not written *)
-Theorem no_write_on_unflagged_stretch ptau stau s us flags i j : (i <= j)%nat ->
-  (forall t, (i <= t < j)%nat -> nth t flags false = false) ->
-  let run k := units_run ptau stau s (firstn k (with_flags us flags)) in
-  tg_params (run j) = tg_params (run i) /\ tg_stats (run j) = tg_stats (run i).
+Lemma with_flags_app : forall u1 u2 f1 f2, length u1 = length f1 ->
+  with_flags (u1 ++ u2) (f1 ++ f2) = with_flags u1 f1 ++ with_flags u2 f2.
 Proof.
-  intros Hij Hf. cbn zeta. set (l := with_flags us flags).
-  replace (firstn j l) with (firstn i l ++ firstn (j - i) (skipn i l)).
-  2:{ rewrite <- (firstn_skipn i (firstn j l)) at 1... }
-Admitted.
+  induction u1 as [|[np ns] u1 IH]; intros u2 [|f f1] f2 H; cbn [length] in H; try discriminate; [reflexivity|].
+  cbn [app with_flags]. rewrite IH by congruence. reflexivity.
+Qed.
+
+Lemma with_flags_unflagged : forall u f, (forall t, nth t f false = false) ->
+  forallb (fun x => negb (snd x)) (with_flags u f) = true.
+Proof.
+  induction u as [|[np ns] u IH]; intros [|b f] H; try reflexivity. cbn [with_flags forallb snd].
+  rewrite (H 0%nat : b = false). cbn [negb andb]. apply IH. intros t. apply (H (S t)).
+Qed.
+
+(* for ANY flag sequence: a stretch of units whose flags are all unset does not write the targets *)
+Theorem no_write_on_unflagged_stretch ptau stau s u1 u2 f1 f2 : length u1 = length f1 ->
+  (forall t, nth t f2 false = false) ->
+  tg_params (units_run ptau stau s (with_flags (u1 ++ u2) (f1 ++ f2))) = tg_params (units_run ptau stau s (with_flags u1 f1)) /\
+  tg_stats (units_run ptau stau s (with_flags (u1 ++ u2) (f1 ++ f2))) = tg_stats (units_run ptau stau s (with_flags u1 f1)).
+Proof.
+  intros Hl Hf. rewrite with_flags_app by exact Hl. rewrite units_run_app. apply units_no_update. apply with_flags_unflagged. exact Hf.
+Qed.
